@@ -3,6 +3,7 @@ import ast
 import collections
 
 from . import terms as T
+from .terms import fmt
 from .symex import SymEx, MUTATORS, Undecided, default_policy
 
 WRITE_MUT = MUTATORS | {'get'}     # 'get' only counts on queue-typed receivers (see is_queue_get)
@@ -235,6 +236,44 @@ def memo_tables(ctx, fn, ps):
             verdict = ('other', 'a hit reads the table under another key') if bad else ('sound', K)
         out[m] = verdict
     return out
+
+
+def class_level_table(M, cls, fld):
+    """<fld> is declared in the class body (of cls or a base) and no constructor rebinds it per instance: one object shared by every instance"""
+    if not any(fld in k.class_attrs for k in cls.mro()):
+        return False
+    for k in [cls] + [c for c in M.classes.values() if cls in c.mro() or c in cls.mro()]:
+        for name, m in k.methods.items():
+            if name != '__init__' and not M.ctor_only(m):
+                continue
+            for n in ast.walk(m.node):
+                if isinstance(n, (ast.Assign, ast.AnnAssign)):
+                    for t in (n.targets if isinstance(n, ast.Assign) else [n.target]):
+                        for x in ast.walk(t):
+                            if isinstance(x, ast.Attribute) and x.attr == fld and isinstance(x.ctx, ast.Store) and isinstance(x.value, ast.Name) and x.value.id == 'self':
+                                return False
+    return True
+
+
+def without_sound_memo_hits(ctx, rule, fn, ps, keyprefix):
+    """Hand-rolled memoisation in fn: report unsound keys and class-level tables as violations of `rule`; for sound per-instance memos return the paths with the
+    hits removed (a hit equals the miss that filled the entry) and the names of the tables, whose writes are not state in the sense of 'depends on history'."""
+    memos = memo_tables(ctx, fn, ps)
+    sound = set()
+    for m_, vd in sorted(memos.items()):
+        if vd[0] == 'unsound':
+            ctx.violation(rule, '%s answers from its memo %s only what it would compute afresh' % (fn.qn, m_), fn.site(),
+                          'the memo is keyed by %s but the stored value also depends on %s' % (fmt(vd[1]), ', '.join(vd[2])), key='%s|%s|memo-key' % (keyprefix, m_))
+        elif vd[0] == 'sound':
+            if fn.cls is not None and class_level_table(ctx.M, getattr(fn, 'dyn_cls', None) or fn.cls, m_):
+                ctx.violation(rule, '%s answers from its memo %s only what it would compute afresh' % (fn.qn, m_), fn.site(),
+                              'the table is a class attribute never rebound per instance: every %s shares it and the key %s does not identify the instance' % (fn.cls.name, fmt(vd[1])),
+                              key='%s|%s|memo-shared' % (keyprefix, m_))
+            else:
+                ctx.holds(rule, '%s: memo %s is per instance and keyed by everything its entries depend on (%s)' % (fn.qn, m_, fmt(vd[1])), fn.site())
+                sound.add(m_)
+    keep = [p for p in ps if not any(c_[0] == 'cmp' and c_[1] == 'in' and v_ and c_[3][0] == 'attr' and c_[3][1] == V('self') and c_[3][2] in sound for c_, v_, _ in p.conds)]
+    return keep, sound
 
 
 def fresh_object_summaries(ctx, cname, meth, policy=default_policy, oracle=None):
